@@ -35,4 +35,8 @@ for k, v in native_build.build_parallel().items():
     print("built", k, v)
 for d in ("evidence", "replays", ".build"):
     (VERIF / d).mkdir(exist_ok=True)
+try:  # warm numba's on-disk cache once (otherwise every shard of every check compiles)
+    subprocess.run([sys.executable, str(VERIF / "lib" / "warmup.py")], timeout=900)
+except Exception as e:  # noqa: BLE001
+    print("warm-up skipped:", e)
 print("setup ok")
